@@ -898,6 +898,14 @@ func recalcDepth(peers *pslice.PSlice, radius uint8, filter peerFilterFunc) uint
 			// therefore we can return assuming that bin is the unsaturated one.
 			return true, false, nil
 		}
+		if bin > shallowestUnsaturated+1 {
+			// the bins in between hold no reachable peer at all (they are
+			// either empty or populated by unreachable peers only): the
+			// first of them is the shallowest unsaturated one.
+			shallowestUnsaturated++
+			binCount = 0
+			return true, false, nil
+		}
 		shallowestUnsaturated = bin
 		binCount = 1
 
